@@ -53,3 +53,56 @@ Proof.
   destruct (make_d_derived ex_bits ex_vals true 16) as [dt|] eqn:E2; [|vm_compute in E2; discriminate].
   exists ct, dt. repeat split. vm_compute in E1. injection E1 as <-. vm_compute. reflexivity.
 Qed.
+
+(* ------------------------------------------------------------ byte level *)
+From LJT Require Import model.LosslessBytes proofs.LosslessBytesProofs.
+
+Lemma bits_of_same : forall n v, Huff.bits_of n v = Lossless.bits_of n v.
+Proof.
+  induction n as [|n IH]; intros v; [reflexivity|]. cbn [Huff.bits_of Lossless.bits_of].
+  rewrite IH, Z.testbit_odd. reflexivity.
+Qed.
+
+Section RealHuffmanBytes.
+  Variable tabs : Z -> list Z * list Z.
+  Variable cts : Z -> ctbl.
+  Variable dts : Z -> dtbl.
+  Hypothesis Hlen : forall t, length (fst (tabs t)) = 17%nat.
+  Hypothesis Hc : forall t, make_c_derived (fst (tabs t)) (snd (tabs t)) 16 = Some (cts t).
+  Hypothesis Hd : forall t, make_d_derived (fst (tabs t)) (snd (tabs t)) true 16 = Some (dts t).
+  Hypothesis Hsz : forall t, sizes_ok (cts t).
+
+  Lemma ct_code_huff t s : 0 <= s <= 16 -> ct_code cts t s = huff_code cts t s.
+  Proof.
+    intros Hs. unfold ct_code, huff_code, encode_sym. pose proof (Hsz t s Hs) as H.
+    destruct (nthZ (ehufsi (cts t)) (Z.to_nat s) =? 0) eqn:E; [lia|]. symmetry. apply bits_of_same.
+  Qed.
+
+  Lemma huff_dec_ct_code t s rest : 0 <= s <= 16 ->
+    huff_dec dts t (ct_code cts t s ++ rest) = Some (s, rest).
+  Proof.
+    intros Hs. rewrite ct_code_huff by assumption.
+    apply (huff_dec_code tabs cts dts Hlen Hc Hd); [|assumption].
+    intros t0 s0 Hs0. unfold encode_sym. pose proof (Hsz t0 s0 Hs0).
+    destruct (nthZ (ehufsi (cts t0)) (Z.to_nat s0) =? 0) eqn:E; [lia|discriminate].
+  Qed.
+
+  Theorem real_huffman_scan_bytes ri mpr R ivs m tail :
+    (1 <= mpr)%nat -> (ri = 0 \/ ((1 <= R)%nat /\ ri = Z.of_nat (R * mpr))) ->
+    ivs_ok ri mpr R ivs -> m <> 0 -> m <> 255 ->
+    exists bytes, enc_total cts ri (0, 0) (ri, 0) (concat ivs) = Some bytes /\
+      dec_intervals (huff_dec dts) (map tblseq ivs) 0 (bytes ++ 255 :: m :: tail)
+      = Some (map canon_iv ivs, Some (m, tail)).
+  Proof.
+    intros Hm HR Hok Hm0 Hm255.
+    apply (scan_bytes_roundtrip cts Hsz ri mpr R Hm HR (huff_dec dts) huff_dec_ct_code); assumption.
+  Qed.
+End RealHuffmanBytes.
+
+Lemma ex_table_sizes_ok : exists ct, make_c_derived ex_bits ex_vals 16 = Some ct /\ sizes_ok ct.
+Proof.
+  destruct (make_c_derived ex_bits ex_vals 16) as [ct|] eqn:E1; [|vm_compute in E1; discriminate].
+  exists ct. split; [reflexivity|]. vm_compute in E1. injection E1 as <-.
+  intros s Hs. assert (H : In s [0;1;2;3;4;5;6;7;8;9;10;11;12;13;14;15;16]) by (cbn; lia).
+  cbn in H. repeat (destruct H as [<-|H]; [vm_compute; split; discriminate|]). destruct H.
+Qed.
